@@ -256,10 +256,11 @@ pub fn property() -> Property {
             triple_strategy,
             |t| t.pick(30_000, 1_500_000),
             check,
-        )],
+        ), crate::fuzz::replay_stream(),
+        ],
         selfcheck: || Ok(()),
         hang_is_violation: false,
         min_nontrivial_share: 0.05,
-        extra: None,
+        extra: Some(crate::fuzz::extra),
     }
 }
